@@ -103,6 +103,7 @@ void fatal_install() {
 } // namespace simrt
 
 // ---- compiler-inserted step callback (SUT TUs are built with -fsanitize-coverage=trace-pc)
+#ifndef SIMRT_NO_TRACE_PC
 extern "C" void __sanitizer_cov_trace_pc() {
     using namespace simrt;
     if (!g_armed || g_in_sut <= 0) return;
@@ -113,6 +114,7 @@ extern "C" void __sanitizer_cov_trace_pc() {
         fatal("no_progress", buf);
     }
 }
+#endif
 
 // ---- link-time wrappers (-Wl,--wrap=abort,--wrap=fprintf): capture ST_ASSERT text, classify abort
 extern "C" int __wrap_fprintf(FILE *f, const char *fmt, ...) {
